@@ -352,3 +352,41 @@ def orca_log(z, steps, dipole_au=None, masses=None):
                 "                        -----------------------------------------", f"Magnitude (a.u.)       :  {float(np.linalg.norm(dipole_au)):12.5f}", ""]
     out += ["                             ****ORCA TERMINATED NORMALLY****", ""]
     return "\n".join(out) + "\n"
+
+
+# ---- Q-Chem output (sections a single-point job prints; layout of Q-Chem 5 text output) ------------------------------------
+def qchem_log(z, xyz_bohr, rem, nalpha, nbeta, nbasis, energy, occ_a, vir_a, occ_b=None, vir_b=None, mulliken=None, dipole_debye=None, quadrupole_debye_ang=None, enuc=9.19775748):
+    """rem: ordered dict of $rem keywords; orbital energies in rows of eight F8.4 values; quadrupole as XX XY YY XZ YZ ZZ."""
+    out = ["                  Welcome to Q-Chem", "", "--------------------------------------------------------------", "User input:", "--------------------------------------------------------------",
+           "$molecule", "0 1"] + [f"{sym(zi)} {r[0]:.10f} {r[1]:.10f} {r[2]:.10f}" for zi, r in zip(z, xyz_bohr / ANG)] + ["$end", "", "$rem"]
+    out += [f"{k:<24s}{v}" for k, v in rem.items()] + ["$end", "--------------------------------------------------------------", " ----------------------------------------------------------------",
+            "             Standard Nuclear Orientation (Angstroms)", "    I     Atom           X                Y                Z", " ----------------------------------------------------------------"]
+    for i, (zi, r) in enumerate(zip(z, xyz_bohr / ANG)):
+        out.append(f"{i + 1:5d}      {sym(zi):<2s}{r[0]:19.10f}{r[1]:17.10f}{r[2]:17.10f}")
+    out += [" ----------------------------------------------------------------", f" Nuclear Repulsion Energy = {enuc:20.8f} hartrees", f" There are {nalpha:8d} alpha and {nbeta:8d} beta electrons",
+            " Requested basis set is " + str(rem.get("basis", "sto-3g")), f" There are {max(1, nbasis // 3)} shells and {nbasis} basis functions", "", " Total QAlloc Memory Limit  96000 MB", "",
+            " A restricted SCF calculation will be performed using DIIS", " SCF converges when DIIS error is below 1.0e-08", " ---------------------------------------", "  Cycle       Energy         DIIS error",
+            " ---------------------------------------", f"    1 {energy + 0.5:18.10f}      4.39e-01", f"    2 {energy:18.10f}      6.02e-09", " ---------------------------------------",
+            " SCF time:   CPU 0.30s  wall 0.00s", f" SCF   energy in the final basis set = {energy:18.10f}", f" Total energy in the final basis set = {energy:18.10f}", "",
+            " --------------------------------------------------------------", "", "                    Orbital Energies (a.u.)", " --------------------------------------------------------------", ""]
+
+    def rows(vals):
+        return [" ".join(f"{v:8.4f}" for v in vals[k : k + 8]) for k in range(0, len(vals), 8)]  # 8(F8.4,1X)
+
+    out += [" Alpha MOs", " -- Occupied --"] + rows(occ_a) + [" -- Virtual --"] + rows(vir_a)
+    if occ_b is not None:
+        out += ["", " Beta MOs", " -- Occupied --"] + rows(occ_b) + [" -- Virtual --"] + rows(vir_b)
+    out += [" --------------------------------------------------------------", ""]
+    if mulliken is not None:
+        out += ["          Ground-State Mulliken Net Atomic Charges", "", "     Atom                 Charge (a.u.)", "  ----------------------------------------"]
+        out += [f"{i + 1:7d} {sym(zi):<2s}{q:29.6f}" for i, (zi, q) in enumerate(zip(z, mulliken))]
+        out += ["  ----------------------------------------", f"  Sum of atomic charges = {sum(mulliken):12.6f}", ""]
+    if dipole_debye is not None:
+        d, q = dipole_debye, quadrupole_debye_ang
+        out += [" -----------------------------------------------------------------", "                    Cartesian Multipole Moments", " -----------------------------------------------------------------",
+                "    Charge (ESU x 10^10)", "                 0.0000", "    Dipole Moment (Debye)", f"         X {d[0]:12.4f}      Y {d[1]:12.4f}      Z {d[2]:12.4f}",
+                f"       Tot {float(np.linalg.norm(d)):12.4f}", "    Quadrupole Moments (Debye-Ang)", f"        XX {q[0]:12.4f}     XY {q[1]:12.4f}     YY {q[2]:12.4f}",
+                f"        XZ {q[3]:12.4f}     YZ {q[4]:12.4f}     ZZ {q[5]:12.4f}", "    Octopole Moments (Debye-Ang^2)", "       XXX      -0.8647    XXY      -0.3834    XYY       0.0837",
+                " -----------------------------------------------------------------", ""]
+    out += ["        *************************************************************", "        *  Thank you very much for using Q-Chem.  Have a nice day.  *", "        *************************************************************", ""]
+    return "\n".join(out) + "\n"
